@@ -186,6 +186,12 @@ def run(job, mon):
       grav = '0 0 -9.81' if c % 2 else '0 0 0'
       el = float(rng.uniform(0, 0.9))
       ga, gb = g(0, True), g(1, True)
+      # sometimes two geoms per body: several simultaneous contacts between
+      # the same two bodies
+      if rng.random() < 0.5:
+        ga += g(2, True)
+      if rng.random() < 0.5:
+        gb += g(3, True)
       tmpl = ('<mujoco><option timestep="0.001" gravity="%s"/><custom>'
               '<numeric name="elasticity" data="%r"/></custom><worldbody>'
               '<body name="a"><freejoint/>%s</body><body name="b">'
